@@ -198,5 +198,74 @@ example : uniqueValuesEq [.int 1, .int 2] true [.int 2, .null, .int 1, .int 2] =
 example : uniqueValuesEq [.int 1, .int 2] true [.null, .null] = false := by decide
 example : uniqueValuesEq [.int 1] true [] = false := by decide
 
+/-! ## several joint-uniqueness groups -/
+
+/-- **every declared group is enforced**: the check reports nothing exactly when, for every group with a
+present column, the rows over the present columns of the group are pairwise distinct — whatever the
+order of the declaration and wherever a group without present columns sits -/
+theorem dupGroups_nil_iff (keep : Keep) (groups : List (List String)) (D : Frame) :
+    dupGroups keep groups D = [] ↔
+      ∀ g ∈ groups, g.filter D.hasCol ≠ [] → Spec.rowsDistinct (groupRows g D) := by
+  unfold dupGroups
+  rw [List.filterMap_eq_nil_iff]
+  constructor
+  · intro h g hg hne
+    have := h g hg
+    have hne' : (g.filter D.hasCol).isEmpty = false := by
+      cases hl : g.filter D.hasCol with
+      | nil => exact absurd hl hne
+      | cons _ _ => rfl
+    simp only [hne', Bool.false_eq_true, ↓reduceIte] at this
+    rw [← dupRowMask_allFalse_iff keep, ← truePositions_nil_iff]
+    cases hd : truePositions (dupRowMask keep (groupRows g D)) with
+    | nil => rfl
+    | cons a l => simp [hd] at this
+  · intro h g hg
+    cases hl : g.filter D.hasCol with
+    | nil => simp
+    | cons x xs =>
+      have hd := h g hg (by rw [hl]; simp)
+      rw [← dupRowMask_allFalse_iff keep, ← truePositions_nil_iff] at hd
+      simp [hd]
+
+/-- **every violated group is reported**: a group is among the reported ones exactly when it has a
+present column and repeated rows -/
+theorem mem_dupGroups_iff (keep : Keep) (groups : List (List String)) (D : Frame) (r : List String × List Nat) :
+    r ∈ dupGroups keep groups D ↔
+      ∃ g ∈ groups, g.filter D.hasCol ≠ [] ∧ r = (g.filter D.hasCol, truePositions (dupRowMask keep (groupRows g D)))
+        ∧ r.2 ≠ [] := by
+  unfold dupGroups
+  simp only [List.mem_filterMap]
+  constructor
+  · rintro ⟨g, hg, h⟩
+    cases hl : g.filter D.hasCol with
+    | nil => simp [hl] at h
+    | cons x xs =>
+      simp only [hl, List.isEmpty_cons, Bool.false_eq_true, ↓reduceIte] at h
+      cases hd : truePositions (dupRowMask keep (groupRows g D)) with
+      | nil => simp [hd] at h
+      | cons a l =>
+        simp only [hd, List.isEmpty_cons, Bool.false_eq_true, ↓reduceIte, Option.some.injEq] at h
+        exact ⟨g, hg, by rw [hl]; simp, by rw [hl, ← h, hd], by rw [← h]; simp⟩
+  · rintro ⟨g, hg, hne, rfl, hr⟩
+    refine ⟨g, hg, ?_⟩
+    have hne' : (g.filter D.hasCol).isEmpty = false := by
+      cases hl : g.filter D.hasCol with
+      | nil => exact absurd hl hne
+      | cons _ _ => rfl
+    have hr' : (truePositions (dupRowMask keep (groupRows g D))).isEmpty = false := by
+      cases hl : truePositions (dupRowMask keep (groupRows g D)) with
+      | nil => exact absurd hl hr
+      | cons _ _ => rfl
+    simp only [hne', hr', Bool.false_eq_true, ↓reduceIte]
+
+/-- a later group is still enforced when an earlier one has no present column, and two violated groups
+are both reported -/
+example : dupGroups .first [["a", "b"], ["c"], ["d"]]
+    { cols := [⟨"c", .int64, [.int 1, .int 1]⟩, ⟨"d", .int64, [.int 7, .int 7]⟩],
+      index := [⟨none, .int64, [.int 0, .int 1]⟩], nrows := 2 }
+    = [(["c"], [1]), (["d"], [1])] := by decide
+
+
 end C01
 end Pandera
